@@ -6,6 +6,7 @@ Cases == {[kind |-> k, shape |-> "chain", n |-> n] : k \in Kinds, n \in 1..3}
          \cup {[kind |-> k, shape |-> "cross", n |-> n] : k \in Kinds, n \in 1..2}
          \cup {[kind |-> k, shape |-> "cycle", n |-> n] : k \in Kinds, n \in 1..3}
          \cup {[kind |-> k, shape |-> "deep", n |-> Limit + 1] : k \in Kinds}
+         \cup {[kind |-> "schema", shape |-> "diamond", n |-> n] : n \in 1..2}
 ASSUME ndJsonSerialize(IOEnv.VERIF_VECTORS, SetToSeq(Cases))
 VARIABLE x
 Init == x = 0
